@@ -378,7 +378,7 @@ pub fn rand_raw_lib(rng: &mut Rng, cfg: &RawCfg) -> GenRaw {
                     }
                 }
                 // net names: identifiers, some with letters outside ASCII (I_10µA, Übertrag, Ω_ref, шина: names are text, not bytes)
-                let net = if cfg.nets && rng.chance(1, 2) { Some(format!("{}{}_{}", rng.pick(&["net", "VDD", "Clk", "a", "I_10µA", "Übertrag", "Ω", "шина", "net_é"]), i, k)) } else { None };
+                let net = if cfg.nets && rng.chance(1, 2) { Some(format!("{}{}_{}", rng.pick(&["net", "VDD", "Clk", "a", "I_10µA", "Übertrag", "Ω", "шина", "net_é", "R_10k\u{2126}", "\u{212A}elvin", "\u{212B}", "Stra\u{1E9E}e", "\u{130}st"]), i, k)) } else { None };
                 // a thin named neighbour on the same layer/purpose, not touching the shape: one unit clear of a rectangle's or polygon's
                 // bounding box, and the closest integer line beyond a single-segment path's edge (half a unit clear for odd widths)
                 let neighbour = if cfg.nets && rng.chance(1, 3) {
